@@ -4,6 +4,8 @@ import WhVerif.Lemmas.C09PseudoOrder
 import WhVerif.Lemmas.C02Compose
 import WhVerif.Lemmas.C09File
 import WhVerif.Lemmas.C09Cap
+import WhVerif.Lemmas.C09Text
+import WhVerif.Lemmas.C09Aug
 /-!
 # C09 — PS and HP encodings are equivalent, round-trip, and never mix old and new phase
 
@@ -641,5 +643,146 @@ example : (List.range 8).all (fun i => Cap.fits 15 exStackPos exStack i) = true 
 theorem cap_per_run_witness :
     (Cap.pass (15 / 2) exStackPos exStack (List.range 8)).length = 7 ∧ 7 ∉ Cap.pass (15 / 2) exStackPos exStack (List.range 8) ∧
     Cap.fits 15 exStackPos exStack 7 = true := by decide
+
+/-! ## Round 10: text level (`Model/C09Text.lean`), passthrough, indexed fetch -/
+
+section Text
+open WhVerif.C09.Text
+
+/-- **ps_text_roundtrip**.  The PS token htslib prints for an identifier (any int32 that is not one of htslib's reserved
+    values; `_set_PS` writes `component + 1 ≥ 1`) is read back as exactly that integer.  Outside the range htslib stores
+    "missing" (`parsePS "2147483648" = some none`, example below): the bound is part of the statement. -/
+theorem ps_text_roundtrip (n : Int) (hlo : int32Lo ≤ n) (hhi : n ≤ int32Hi) : parsePS (renderPS (some n)) = some (some n) :=
+  GT.ps_text_roundtrip n hlo hhi
+
+example : parsePS "2147483648".toList = some none := by decide
+example : (int32Lo ≤ (7 : Int)) ∧ ((7 : Int) ≤ int32Hi) := by decide
+
+/-- **hp_text_roundtrip**.  The text `_set_HP` writes (`",".join(f"{component + 1}-{allele + 1}" …)`) for ANY component
+    and ANY non-empty tuple of alleles (any ploidy) is parsed back by `_extract_HP_phase`'s text handling (pysam's tuple,
+    `split("-")`, `int()`, the assert loop, `field[1]`) to exactly the pairs written.  More generally, for arbitrary
+    non-empty pairs `(id ≥ 0, haplotype number ≥ 0)` with one block id. -/
+theorem hp_text_roundtrip (l : List (Nat × Nat)) (hne : l ≠ []) (hb : ∀ x ∈ l, x.1 = (l.headD (0, 0)).1) :
+    hpValOfText (renderHP l) = .ok (some l) := by
+  rw [hpValOfText_renderHP l hne, if_pos]
+  simpa using hb
+
+theorem hp_text_roundtrip_writer (c : Call) (comp : Nat) (p : List Nat) (hp : p ≠ []) :
+    ∃ l, (setHP c comp p).get "HP" = .hp l ∧ hpValOfText (renderHP l) = .ok (some l) := by
+  refine ⟨p.map fun a => (comp + 1, a + 1), by simp [setHP], ?_⟩
+  apply hp_text_roundtrip
+  · simpa using hp
+  · obtain ⟨a, r, rfl⟩ := List.exists_cons_of_ne_nil hp
+    intro x hx
+    simp only [List.map_cons, List.mem_cons, List.mem_map] at hx
+    rcases hx with rfl | ⟨_, _, rfl⟩ <;> rfl
+
+example : hpValOfText "12-2,12-1".toList = .ok (some [(12, 2), (12, 1)]) := by decide
+
+/-- **gt_text_roundtrip**.  `parseGT (renderGT g phased) = (g, phased)` for every ploidy ≥ 1, missing alleles and
+    multi-digit alleles included, as long as the allele indices exist in the record; a haploid call has no separator and
+    reads as "phased" (htslib / pysam). -/
+theorem gt_text_roundtrip (nal : Nat) (g : Gt) (ph : Bool) (hne : g ≠ []) (hal : ∀ a ∈ g, ∀ x, a = some x → x < nal) :
+    parseGT nal (renderGT g ph) = some (g, ph || decide (g.length = 1)) :=
+  GT.gt_text_roundtrip nal g ph hne hal
+
+example : parseGT 13 "0|.|12".toList = some ([some 0, none, some 12], true) := by decide
+
+/-- **hp_text_injective**.  Different (block id, haplotype order) lists never share their HP text. -/
+theorem hp_text_injective (l1 l2 : List (Nat × Nat)) (h : renderHP l1 = renderHP l2) : l1 = l2 :=
+  renderHP_injective l1 l2 h
+
+/-- **hp_malformed_rejected**.  (1) Whatever pairs are written with two different block ids, the decoder stops at its
+    `assert`; (2) an HP value dropped from the end of the sample column (`()`) is an `IndexError`, for every GT. -/
+theorem hp_malformed_rejected (l : List (Nat × Nat)) (hne : l ≠ []) (x : Nat × Nat) (hx : x ∈ l)
+    (hd : x.1 ≠ (l.headD (0, 0)).1) (gt : Option Gt) :
+    extractHPText (.text (renderHP l)) gt = .error .assertion ∧ extractHPText .dropped gt = .error .index := by
+  refine ⟨?_, rfl⟩
+  have hv : hpValOfText (renderHP l) = .error .assertion := by
+    rw [hpValOfText_renderHP l hne, if_neg]
+    intro hall
+    rw [List.all_eq_true] at hall
+    exact hd (by simpa using hall x hx)
+  simp only [extractHPText, hv]
+
+example : (9, 2) ∈ [(8, 1), (9, 2)] ∧ (9 ≠ ([(8, 1), ((9 : Nat), (2 : Nat))].headD (0, 0)).1) := by decide
+
+/-- the error outcomes of `_extract_HP_phase` by kind, on concrete texts (GT `0/1` unless stated) -/
+theorem hp_malformed_witnesses :
+    let gt : Option Gt := some [some 0, some 1]
+    extractHPText (.text "1-1,,1-2".toList) gt = .error .attribute ∧      -- empty piece: `None.split`
+    extractHPText (.text "1-x,1-2".toList) gt = .error .value ∧           -- `int("x")`
+    extractHPText (.text "1-1,1--2".toList) gt = .error .value ∧          -- `int("")`
+    extractHPText (.text "1-1,1-2.0".toList) gt = .error .value ∧
+    extractHPText (.text "1-1,2-2".toList) gt = .error .assertion ∧       -- two block ids
+    extractHPText (.text "1,1-2".toList) gt = .error .index ∧             -- `field[1]`
+    extractHPText (.text "1-1,1-3".toList) gt = .error .value ∧           -- `order.index(1)`
+    extractHPText (.text "1-1,1-1".toList) gt = .error .value ∧
+    extractHPText (.text "1-1,1-2,1-3".toList) gt = .error .index ∧       -- `phase[2]` on a diploid GT
+    extractHPText (.text "1-1,1-2".toList) none = .error .key ∧           -- record without GT
+    extractHPText (.text "1-1,.".toList) gt = .error .value ∧
+    -- accepted although odd: whitespace, `+`, `_`, leading zeros, extra pieces
+    extractHPText (.text " 1-+2, 01 - 1_0-7".toList) gt = .error .value ∧
+    extractHPText (.text "1-2-9, +01-1 ".toList) gt = .ok (some ⟨some 1, [some 1, some 0]⟩) ∧
+    extractHPText (.text ".".toList) gt = .ok none := by
+  decide
+
+/-- **decode_written_text_partial**.  The three tokens the encoders write — `_set_HP`'s HP text, `_set_PS`'s PS integer
+    and phased GT — are read back from text as exactly the typed values about which `decode_written`, `ps_hp_equivalent`
+    and `write_roundtrip` speak (for every component whose `component + 1` fits htslib's int32, every ploidy).
+    FULL statement, not proved here: `callPhasesText (colOf nal fmt (finalCall cfg prev r n c)) =
+    callPhases fmt (finalCall cfg prev r n c)` up to the kind of exception, for every renderable final call (missing: the
+    refinement `extractHPText ∘ renderHP = extractHP` through `pickAll` vs `mapM`, and `colOf`'s definedness on the writer's
+    calls); the differential check `c09.text` compares exactly this on every sample column of the CLI histories. -/
+theorem decode_written_text_partial (c : Call) (comp : Nat) (p : List Nat) (hp : p ≠ []) (nal : Nat)
+    (hal : ∀ a ∈ p, a < nal) (hc : ((comp : Int) + 1) ≤ int32Hi) :
+    (∃ l, (setHP c comp p).get "HP" = .hp l ∧ hpValOfText (renderHP l) = .ok (some l)) ∧
+    ((setPS c comp p).get "PS" = .int ((comp : Int) + 1) ∧
+      parsePS (renderPS (some ((comp : Int) + 1))) = some (some ((comp : Int) + 1))) ∧
+    ((setPS c comp p).gt = some (p.map some) ∧ (setPS c comp p).phased = true ∧
+      parseGT nal (renderGT (p.map some) true) = some (p.map some, true)) := by
+  refine ⟨hp_text_roundtrip_writer c comp p hp, ⟨?_, ?_⟩, rfl, rfl, ?_⟩
+  · simp only [setPS, Call.get, fget_fset_same]
+  · exact ps_text_roundtrip _ (by unfold int32Lo; omega) hc
+  · have := gt_text_roundtrip nal (p.map some) true (by simpa using hp)
+      (by intro a ha x hx; simp only [List.mem_map] at ha; obtain ⟨y, hy, rfl⟩ := ha; cases hx; exact hal _ hy)
+    simpa using this
+
+example : ((0 : Nat) : Int) + 1 ≤ int32Hi := by decide
+
+/-- **write_unchanged_is_identity_on_calls**.  Over a file whose chromosomes come in non-empty runs with different
+    neighbours, calling `write_unchanged` / `write` once per chromosome in file order never trips an `assert` of
+    `_iterrecords`, and every chromosome that goes through `write_unchanged` is written record for record (site columns,
+    FORMAT and all calls: the whole record) as read; `write` gets exactly the records of its chromosome. -/
+theorem write_unchanged_is_identity_on_calls {α} (groups : List (String × List α)) (fs : List (Option (α → α)))
+    (hlen : fs.length = groups.length) (hne : ∀ g ∈ groups, g.2 ≠ []) (hadj : AdjDiff (groups.map (·.1))) :
+    runAug ⟨none, flatten groups⟩ ((groups.map (·.1)).zip fs) =
+      .ok ((groups.zip fs).map fun gf => match gf.2 with | none => gf.1.2 | some g => gf.1.2.map g) :=
+  runAug_groups groups fs hlen hne hadj
+
+example : AdjDiff ["chr1", "chr2", "chr1"] := by decide
+/-- asked for a chromosome the stream is not at: `assert n != 1` -/
+example : runAug ⟨none, [("chr1", 1), ("chr2", 2)]⟩ [("chr2", (none : Option (Nat → Nat)))] = .error () := by decide
+
+/-- **fetch_eq_iterate_for_chromosome**.  On a file whose contigs each form one block (what an index requires), with
+    non-empty REF alleles, `fetch(chromosome)` — region `[0, None)` — hands `_process_single_chromosome` exactly the
+    records that `__iter__`'s `groupby` run for that chromosome contains, so both build the same table (same function on the
+    same list; the `ploidy` carried by the reader object aside). -/
+theorem fetch_eq_iterate_for_chromosome {α} (site : α → Site) (groups : List (String × List α))
+    (hchrom : ∀ g ∈ groups, ∀ x ∈ g.2, (site x).chrom = g.1)
+    (hpw : (groups.map (·.1)).Pairwise (· ≠ ·))
+    (hlen : ∀ g ∈ groups, ∀ x ∈ g.2, 0 < (site x).rlen)
+    (hne : ∀ g ∈ groups, g.2 ≠ []) (hadj : AdjDiff (groups.map (·.1)))
+    (g : String × List α) (hg : g ∈ groups) :
+    g ∈ runsOf (fun x => (site x).chrom) ((flatten groups).map (·.2)) ∧
+    fetchChrom site ((flatten groups).map (·.2)) g.1 = g.2 := by
+  rw [runsOf_flatten site groups hchrom hne hadj]
+  exact ⟨hg, fetchChrom_group site groups hchrom hpw hlen g hg⟩
+
+/-- the region arithmetic matters: with `start = 1` the record at POS 1 would be lost -/
+example : fetchRecs id [⟨"chr1", 0, 1⟩, ⟨"chr1", 99999, 1⟩] "chr1" 0 none = [⟨"chr1", 0, 1⟩, ⟨"chr1", 99999, 1⟩] ∧
+    fetchRecs id [⟨"chr1", 0, 1⟩, ⟨"chr1", 99999, 1⟩] "chr1" 1 none = [⟨"chr1", 99999, 1⟩] := by decide
+
+end Text
 
 end WhVerif.Props.C09
